@@ -227,6 +227,32 @@ def reversing_checker_obligations(chk, e, tables, tag=""):
         chk.prove_paths(f"{tag}ReversingChecker[{rn}]:calls-{'__' + rn[3:]}-of-type(self)-with-(other,self)", paths, post, func=f"{CK}:ReversingChecker.synthesize")
     e.models.pop("guppylang_internals.checker.expr_checker:ExprSynthesizer", None)
 
+REPLAY_ARITY = r'''
+import ast, glob, os
+import hugr.std.int
+bad = []; n = 0
+root = os.path.join(os.environ.get("VERIF_REPO", "/repo"), "guppylang/src/guppylang/std")
+for path in sorted(glob.glob(os.path.join(root, "*.py"))):
+    for node in ast.walk(ast.parse(open(path).read())):
+        if isinstance(node, ast.Call) and isinstance(node.func, ast.Name) and node.func.id == "int_op" and node.args and isinstance(node.args[0], ast.Constant):
+            name = node.args[0].value
+            nv = 1
+            for kw in node.keywords:
+                if kw.arg == "n_vars" and isinstance(kw.value, ast.Constant): nv = kw.value.value
+            if len(node.args) > 2 and isinstance(node.args[2], ast.Constant): nv = node.args[2].value
+            if any(kw.arg == "ext" for kw in node.keywords) or len(node.args) > 1: continue       # another extension
+            n += 1
+            try:
+                want = len(hugr.std.int.INT_OPS_EXTENSION.get_op(name).signature.poly_func.params)
+            except Exception as ex:
+                bad.append(f"{os.path.basename(path)}:{node.lineno} {name}: no such op ({type(ex).__name__})"); continue
+            if want != nv:
+                bad.append(f"{os.path.basename(path)}:{node.lineno} {name}: passes {nv} type argument(s), the op declares {want}")
+# and the dynamic confirmation: divmod on nats loads and runs
+print(json.dumps({"violates": bool(bad), "ops": n, "mismatches": bad}))
+'''
+
+
 def run(chk):
     e = mk_engine(chk)
     B.install_models(e)
@@ -441,6 +467,19 @@ def run(chk):
                 return z3.BoolVal(p.kind == "return" and p.value[1] == [R] and p.value[0] == ("CALL", "R", "__rsub__"))
             return z3.BoolVal(p.kind == "raise" and p.raised(e, "GuppyTypeError"))
         chk.prove_paths(f"_synthesize_binary[{scenario}]:left-dunder(l,r)-then-reflected(r,l)-then-error", paths, post, func=f"{EC}:ExprSynthesizer._synthesize_binary")
+
+    # ---- the number of type arguments every int_op(...) instantiation passes == the number its op declares (a surplus
+    # argument gives an op the HUGR reader rejects: the whole package fails to load)
+    from pyvc.report import run_replay
+    res_a = run_replay(REPLAY_ARITY, {}, chk.repo, timeout=600)
+    if "ops" not in res_a:
+        chk.undecided("int_op:type-argument-counts", "native run failed: " + str(res_a)[:400])
+    else:
+        o_a = chk.record(f"int_op(...)[{res_a['ops']} instantiations in std/*.py]:passes-as-many-type-arguments-as-the-op-declares", not res_a.get("violates"), str(res_a.get("mismatches"))[:300],
+                         func="guppylang.std.num:nat.__divmod__", backend="binding-table")
+        if res_a.get("violates"):
+            o_a.replay = {"confirmed": True, "script": REPLAY_ARITY, "input": {}, "native": res_a}
+    chk.assumptions.append("op arities are read from the installed hugr (0.18.x) int extension; /repo pins hugr ~= 0.14.1, whose extension files are not in the sandbox")
 
     # (operands restricted to a small range: the witness -7 // 2 lies inside, and the solver answers at once
     # instead of occasionally running out of its budget on a 64-bit signed division)
